@@ -82,6 +82,8 @@ def episodes(tier, seed, purpose):
                 ops = edit_ops(rnd, min(nq, 4), None, tier)
                 k = 1 if rnd.random() < 0.6 else 2
                 chosen = [rnd.choice(ops) for _ in range(k)]
+                if k == 2 and chosen[0] == chosen[1] and chosen[0][0].startswith("mod "):
+                    chosen = chosen[:1]          # the same xor twice is no change at all
                 for op in chosen:
                     for o in op:
                         L.append(o.format(X=X, T=T))
